@@ -50,12 +50,20 @@ ASSUMPTIONS = [
     "widths and precisions are concrete per configuration; grids of 3..5 points per axis",
 ]
 OUTSIDE = ["histories containing the same point twice (scikit-learn's GP regression is singular on duplicated points with equal losses: remark in DESIGN.md)", "dims > 2 (quick) / 3 (thorough)", "floating rounding of the step arithmetic (an exact-real claim; the replay runs binary64)", "histories longer than 3 rows"]
-REQUIRED_LABELS = ["shape", "on_grid"]
+REQUIRED_LABELS = ["shape", "on_grid", "declared_grid"]
 
 # (width, precision): aligned, non-aligned, non-aligned small, wide, overshoot
 CONFIGS = {"aligned": (Fraction(1), Fraction(1, 4)), "nonaligned": (Fraction(1), Fraction(3, 10)), "short": (Fraction(7, 10), Fraction(1, 4)), "wide": (Fraction(1000), Fraction(300)),
            # the range falls short of a multiple of the precision by less than the 1e-7 end-point tolerance: the top grid value lies ABOVE the upper bound
            "overshoot": (Fraction(1) - Fraction(5, 10**8), Fraction(1, 4))}
+
+
+def declared_grid(lo, cfg):
+    """The grid the specification DECLARES (independent of SearchSpace's own arithmetic): lo, lo+precision, ... up to the last
+    step not beyond the upper bound (with the documented 1e-7 end-point tolerance)."""
+    rng, prec = CONFIGS[cfg]
+    kmax = int((rng + Fraction(1, 10**7)) / prec)
+    return [lo + k * prec for k in range(kmax + 1)]
 
 
 def bounds(tier):
@@ -147,6 +155,10 @@ def case(kind, cfgs, B, rows, sym_call=0, sym_row=0, ncalls=2):
             prec = [CONFIGS[cfgs[d]][1] for d in range(dims)]
             space = SearchSpace([los, his], prec, verbose=False)
             grids = space.param_grid
+            decl = [declared_grid(los[d], cfgs[d]) for d in range(dims)]
+            for d in range(dims):
+                ctx.prove(z3.BoolVal(len(grids[d]) == len(decl[d])) if len(grids[d]) != len(decl[d]) else z3.And(*[lift(a) == lift(b) for a, b in zip(grids[d], decl[d])]),
+                          "declared_grid", f"coordinate {d} ({cfgs[d]}): the space's grid has {len(grids[d])} points, the declared one {len(decl[d])}")
             pts = np.empty((rows, dims), dtype=object)
             for r in range(rows):
                 for d in range(dims):
@@ -170,7 +182,7 @@ def case(kind, cfgs, B, rows, sym_call=0, sym_row=0, ncalls=2):
                         return
                     for r in range(B):
                         for d in range(dims):
-                            ctx.prove(z3.Or(*[lift(out[r, d]) == lift(g) for g in grids[d]]), "on_grid", f"{kind} call {call}: row {r} coordinate {d} ({cfgs[d]})")
+                            ctx.prove(z3.Or(*[lift(out[r, d]) == lift(g) for g in decl[d]]), "on_grid", f"{kind} call {call}: row {r} coordinate {d} ({cfgs[d]})")
                     if call == 0:
                         pts = np.vstack((pts, np.asarray(out, dtype=object)))
                         losses = np.hstack((losses, [ctx.real(f"hl{rows + j}") for j in range(B)]))
@@ -207,9 +219,13 @@ def replay_concrete(kind, cfgs, B, rows, v, ncalls=2):
     except Exception as e:  # noqa: BLE001
         return False, f"search space rejected: {e}"
     grids = space.param_grid
+    decl = [[float(Fraction(lo[d]) + k * CONFIGS[cfgs[d]][1]) for k in range(int((CONFIGS[cfgs[d]][0] + Fraction(1, 10**7)) / CONFIGS[cfgs[d]][1]) + 1)] for d in range(dims)]
     pts = np.array([[grids[d][(2 * r + d + 1) % len(grids[d])] if kind.startswith("pso") else grids[d][min(int(v.get(f"hi{r}_{d}") or 0), len(grids[d]) - 1)] for d in range(dims)] for r in range(rows)], dtype=float).reshape(rows, dims)
     losses = np.array([float(f(v.get(f"hl{r}", r + 1.0))) for r in range(rows)], dtype=float)
     msgs = []
+    for d in range(dims):
+        if len(grids[d]) != len(decl[d]) or any(abs(a - b) > 1e-9 * (1 + abs(b)) for a, b in zip(grids[d], decl[d])):
+            msgs.append(f"SearchSpace grid of coordinate {d} is {grids[d].tolist()}, declared [{lo[d]}, {hi[d]}] step {prec[d]} gives {decl[d]}")
     try:
         with warnings.catch_warnings():
             warnings.simplefilter("ignore")
@@ -225,8 +241,9 @@ def replay_concrete(kind, cfgs, B, rows, v, ncalls=2):
                         break
                     for r in range(B):
                         for d in range(dims):
-                            if not any(out[r, d] == g for g in grids[d]):
-                                msgs.append(f"call {call}: coordinate {out[r, d]!r} of row {r} is not an element of the grid {grids[d].tolist()}")
+                            # element of the space's grid AND (up to binary64 rounding of lo + k*precision) of the declared grid
+                            if not any(out[r, d] == g for g in grids[d]) or not any(abs(out[r, d] - g) <= 1e-9 * (1 + abs(g)) for g in decl[d]):
+                                msgs.append(f"call {call}: coordinate {out[r, d]!r} of row {r} is not an element of the declared grid {decl[d]} (space grid: {grids[d].tolist()})")
                     pts = np.vstack((pts, out))
                     losses = np.hstack((losses, [float(f(v.get(f"hl{rows + j}", 0.5 + j))) for j in range(B)]))
     except Exception as e:  # noqa: BLE001
@@ -245,13 +262,14 @@ def case_concrete_seed(kind, cfgs, B):
             his = [los[d] + CONFIGS[cfgs[d]][0] for d in range(dims)]
             prec = [CONFIGS[cfgs[d]][1] for d in range(dims)]
             space = SearchSpace([los, his], prec, verbose=False)
+            decl = [declared_grid(los[d], cfgs[d]) for d in range(dims)]
             s = _mk(kind, B)
             for call in range(2):
                 out = s.sample(space, np.zeros((0, dims)), np.zeros(0))
                 ctx.prove(z3.BoolVal(out.shape == (B, dims)), "shape", f"{kind} shape")
                 for r in range(B):
                     for d in range(dims):
-                        ctx.prove(z3.Or(*[lift(out[r, d]) == lift(g) for g in space.param_grid[d]]), "on_grid", f"{kind} (real generator) row {r} coordinate {d}")
+                        ctx.prove(z3.Or(*[lift(out[r, d]) == lift(g) for g in decl[d]]), "on_grid", f"{kind} (real generator) row {r} coordinate {d}")
 
     def replay(cex):
         return replay_concrete(kind, cfgs, B, 0, cex.values)
@@ -273,6 +291,8 @@ def cases(tier, seed):
     cs.append(case("bestbatch", ("nonaligned",), 1, 3, ncalls=1))
     cs.append(case("bestbatch", ("overshoot",), 1, 2, ncalls=1))
     cs.append(case("uniform", ("overshoot", "aligned"), 2, 0))
+    cs.append(case("uniform", ("short",), 2, 0))  # remainder of the range larger than half a step
+    cs.append(case("halton", ("short", "aligned"), 2, 0, 0, 1))
     cs.append(case("halton", ("overshoot",), 2, 0, 0, 1))
     for k in ("pso", "pso-global"):
         cs.append(case(k, ("nonaligned",), 1, 2))
